@@ -66,8 +66,9 @@ def in_child(fn, *args):
 
 
 def _assert_pristine():
-    if glom.core.Path._CACHE != {True: {}, False: {}} or glom.core.Path._STAR_WARNED or not glom.core.PATH_STAR:
-        raise vlib.MachineryError('the parent interpreter is not pristine (glom was used before forking)')
+    why = B.pristine_problem()
+    if why:
+        raise vlib.MachineryError('the parent interpreter is not pristine (glom was used before forking): ' + why)
 
 
 def _fresh_call(call, star, regs):
@@ -100,7 +101,7 @@ def _perform(actions, maxcache):
     ordered event list (the Trace row)."""
     log = B.EventLog()
     B.install_logs(log)
-    glom.core.Path._MAX_CACHE = maxcache
+    B.set_max_cache(maxcache)
     warnings.simplefilter('always')
     warnings.showwarning = lambda *a, **k: log.add({'e': 'warn'})
     ctx = B.Ctx()
@@ -181,8 +182,8 @@ def check_history(acts, preds, maxcache, oracle, out, label):
         elif preds is not None:
             p = preds[i]
             want = dict(pct=p['pct'], pcf=p['pcf'], tck=sorted(p['tck']))
-            got = dict(rec['cache'], tck=sorted(rec['cache']['tck']))
-            if want != got or p['nwarn'] != rec['nwarn']:
+            got = dict(rec['cache'], tck=sorted(rec['cache']['tck'])) if rec['cache'] is not None else None
+            if got is not None and (want != got or p['nwarn'] != rec['nwarn']):
                 out['drift'].append(dict(want=want, got=got, nwarn=[p['nwarn'], rec['nwarn']], actions=acts, call_index=i))
         if rec['out']['ok'] is False or rec['out']['obs'] or len(acts) > 1:
             out['nontrivial'] += 1
@@ -368,18 +369,19 @@ def random_histories(seed, n, length):
 # ---- real overflow (> 10000 distinct path strings) ---------------------------------------------
 def _overflow():
     warnings.simplefilter('ignore')
-    n = glom.core.Path._MAX_CACHE + 40
+    limit = getattr(glom.core.Path, '_MAX_CACHE', None)
+    n = (limit if type(limit) is int and limit <= 200000 else 10000) + 40     # > 10 000 distinct path strings
     target = {'k%d' % i: i for i in range(n)}
     target['*'] = -1
-    bad = []
+    bad, drift = [], []
     for star in (True, False):
         glom.core.PATH_STAR = star
         for i in range(n):
             if glom.glom(target, 'k%d' % i) != i:
                 bad.append(('fill', star, i))
-        size = len(glom.core.Path._CACHE[star])
-        if size > glom.core.Path._MAX_CACHE + 1:
-            bad.append(('cache grew beyond the bound', star, size))
+        cache = B._path_cache()      # (mechanism-level, only when observable: the memo stops growing)
+        if cache is not None and type(limit) is int and len(cache[star]) > limit + 1:
+            drift.append(('memo grew beyond _MAX_CACHE + 1', star, len(cache[star])))
         # overflowed: outcomes must be what they are in a cold interpreter
         want = -1 if not star else sorted(target.values())
         got = glom.glom(target, '*')
@@ -393,7 +395,7 @@ def _overflow():
     got = glom.glom(target, '*')
     if sorted(got) != sorted(target.values()):
         bad.append(('toggle back after overflow', repr(got)[:80]))
-    return bad, n
+    return bad, drift, n
 
 
 # ---- fresh subprocess cross-check of the fork shortcut -------------------------------------------
@@ -459,9 +461,18 @@ def canaries(rows):
     return out
 
 
+MECHANISM_CLAUSES = ('pc_', 'tc_', 'warned_again')
+LAW_EVENTS = ('call', 'toggle', 'reg')
+
+
 def trace_validate(check, rows, label, chunk, module='Trace_C06'):
-    """rows -> Trace module; rejected rows are violations, rows with calls outside the modelled
-    fragment are skipped-with-reason; corrupted canary rows must be rejected"""
+    """rows -> Trace module.  A row rejected on a LAW clause (a call's outcome / value / error
+    class / observations is not that of the isolated call) is a violation.  A row rejected on a
+    MECHANISM clause (a cache hit / miss / stored value is not what the model's cache state
+    dictates) is mechanism drift - the library may spell its caches differently - and is validated
+    again with the cache events removed, so that every call outcome is still judged.  Rows with
+    calls outside the modelled fragment are skipped-with-reason; corrupted canary rows must be
+    rejected."""
     skipped = 0
     if not rows:
         return 0
@@ -469,19 +480,31 @@ def trace_validate(check, rows, label, chunk, module='Trace_C06'):
     if not any(c['canary'] == 'value' for c in can) and not check.violations:
         raise vlib.MachineryError('no recorded session suitable for the corrupted-row canaries')
     caught = set()
-    before = check.cov['traces_validated_against_impl']
+    again = []
+
+    def judge(row, j, second):
+        nonlocal skipped
+        if j['clause'] == 'skipped':
+            skipped += 1
+            return
+        if not second and j['clause'].startswith(MECHANISM_CLAUSES):
+            check.extra.setdefault('mechanism_drift_clauses', {})
+            check.extra['mechanism_drift_clauses'][j['clause']] = check.extra['mechanism_drift_clauses'].get(j['clause'], 0) + 1
+            again.append(dict(row, events=[e for e in row['events'] if e['e'] in LAW_EVENTS]))
+            return
+        ev = row['events'][j['at'] - 1] if 0 < j['at'] <= len(row['events']) else None
+        check.violation(dict(kind='trace', clause=j['clause'], event_index=j['at'], event=ev, row=row),
+                        'recorded session rejected by the specification: clause %s at event %s' % (j['clause'], j['at']),
+                        matcher=match_finding)
     for row, j in vlib.validate_rows(check, module, rows + can, label, chunk=chunk, workers_parallel=vlib.NCPU):
         if 'canary' in row:
             if j['clause'] == row['canary']:
                 caught.add(row['canary'])
             continue
-        if j['clause'] == 'skipped':
-            skipped += 1
-            continue
-        ev = row['events'][j['at'] - 1] if 0 < j['at'] <= len(row['events']) else None
-        check.violation(dict(kind='trace', clause=j['clause'], event_index=j['at'], event=ev, row=row),
-                        'recorded session rejected by the specification: clause %s at event %s' % (j['clause'], j['at']),
-                        matcher=match_finding)
+        judge(row, j, False)
+    if again:
+        for row, j in vlib.validate_rows(check, module, again, label + '-law-only', chunk=chunk, workers_parallel=vlib.NCPU):
+            judge(row, j, True)
     if caught != {c['canary'] for c in can} and not check.violations:
         raise vlib.MachineryError('corrupted recorded rows were not rejected: %s' % sorted({c['canary'] for c in can} - caught))
     check.extra.setdefault('corrupted_rows_rejected', 0)
@@ -556,12 +579,14 @@ def _main(check, tier, seed):
     cov = B.mechanism_coverage([j['hist'] for j in vres['json'] if 'hist' in j])
     B.require_coverage(cov)
     check.extra['mechanism_coverage'] = cov
+    check.extra['mechanism_unobservable'] = in_child(B.observability)
     # subprocess cross-check of the fork shortcut
     check.extra['fresh_subprocess_crosschecks'] = subprocess_crosscheck(
         check, _CFG['pool'], Oracle(), {'quick': 6, 'thorough': 40}[tier])
     if tier == 'thorough':
-        bad, n = in_child(_overflow)
+        bad, odrift, n = in_child(_overflow)
         check.extra['real_overflow_paths'] = n
+        check.extra['real_overflow_mechanism_drift'] = odrift
         check.cov['evaluations'] += 2 * n
         for b in bad:
             check.violation(dict(kind='overflow', detail=b), 'real cache overflow changed an outcome: %r' % (b,),
